@@ -138,6 +138,45 @@ EQ = {
 }
 
 
+# ---------------------------------------------------------------------------------------------------------------
+# pure static functions (harness/fn2coq.py -> GFn.v)
+import fn2coq as _f
+
+_PT = "frouros/callbacks/batch/permutation_test.py"
+FN_UNITS = [
+    dict(name="perm_compute_conservative", file=_PT, cls="PermutationTestDistanceBased", fn="_compute_conservative",
+         params=dict(num_permutations=_f.INT, observed_statistic=_f.NUM, permuted_statistic=_f.vec(_f.NUM))),
+    dict(name="perm_compute_estimate", file=_PT, cls="PermutationTestDistanceBased", fn="_compute_estimate", params=dict(extreme_statistic=_f.vec(_f.BOOL))),
+    dict(name="perm_compute_exact", file=_PT, cls="PermutationTestDistanceBased", fn="_compute_exact",
+         params=dict(extreme_statistic=_f.vec(_f.BOOL), total_num_permutations=_f.INT, permuted_statistic=_f.vec(_f.NUM))),
+    dict(name="perm_compute_approximate", file=_PT, cls="PermutationTestDistanceBased", fn="_compute_approximate",
+         params=dict(extreme_statistic=_f.vec(_f.BOOL), total_num_permutations=_f.INT, permuted_statistic=_f.vec(_f.NUM))),
+    dict(name="perm_calculate_p_value", file=_PT, cls="PermutationTestDistanceBased", fn="_calculate_p_value",
+         params=dict(X_ref=_f.OPQ, X_test=_f.OPQ, statistic=_f.OPQ, statistic_args=_f.OPQ, observed_statistic=_f.NUM, num_permutations=_f.INT,
+                     total_num_permutations=_f.opt(_f.INT), num_jobs=_f.INT, method=_f.STR, random_state=_f.opt(_f.INT), verbose=_f.BOOL)),
+]
+FN_ORACLES = {
+    # frouros.utils.stats.permutation (multiprocessing pool, NumPy's generator): (statistics of the re-splits, (n+m)!)
+    "permutation": dict(coq="o_permutation", poly=True, ty="forall T : Type, T -> T -> T -> T -> Z -> Z -> option Z -> bool -> list (num A) * Z",
+                        params=["X", "Y", "statistic", "statistical_args", "num_permutations", "num_jobs", "random_state", "verbose"],
+                        ptypes=[_f.OPQ, _f.OPQ, _f.OPQ, _f.OPQ, _f.INT, _f.INT, _f.opt(_f.INT), _f.BOOL], ret=_f.tup(_f.vec(_f.NUM), _f.INT)),
+    # scipy.stats.binom.cdf(k, n, p) (p a scalar or an array)
+    "binom.cdf": dict(coq="o_binom_cdf", ty="Z -> Z -> num A -> num A", ptypes=[_f.INT, _f.INT, _f.NUM], ret=_f.NUM, lift_last=True),
+    # scipy.integrate.quad(func, a, b) -> (integral, error estimate)
+    "quad": dict(coq="o_quad", ty="(num A -> num A) -> num A -> num A -> num A * num A", params=["func", "a", "b"],
+                 ptypes=[("fun", [_f.NUM], _f.NUM), _f.NUM, _f.NUM], ret=_f.tup(_f.NUM, _f.NUM)),
+}
+FN_CONSTS = [(_PT, ["MAX_NUM_PERM"])]
+# property -> Eq files that are compiled against GFn.v
+EQ.update({"C13": ["EqPerm.v"]})
+
+
+def translate_fns(repo):
+    """returns (coq text of GFn.v, {unit: error}, [oracle names])"""
+    tr = _f.FnTranslator(repo, FN_UNITS, FN_ORACLES, FN_CONSTS).run()
+    return tr.emit(), tr.errors, sorted(tr.used_oracles)
+
+
 def translate(repo):
     """returns (coq text, {unit name: error}) -- a unit that cannot be translated is left out (fail-closed:
     the equivalence lemmas about it then do not compile)"""
